@@ -1,5 +1,6 @@
 import Feox.Props.C02
 import Feox.Props.C03
+import Feox.Proto.DurLive
 /-!
 # C09 — I/O failures are reported, contained and never destroy durable data
 
@@ -70,5 +71,24 @@ theorem failed_write_cleanup_safe {d d' : Disk} {hi lo : Nat} {L : List Rec} (h 
 /-- the invariants of C02 hold along every accepted trace, with or without faults -/
 theorem inv_under_faults (evs : List Ev) (k : Key) (h : evs.foldlM step? {} = some k) : Inv k :=
   run_inv evs {} k inv_init h
+
+/-- **Once the device works again a flush can always succeed**: from every state any sequence of
+accepted events reaches — whatever failed in between, a failure being the absence of an event —
+worker events alone (skip the superseded queued generations, write the latest, retire the stale
+durable ones; no further API call) lead to a state in which `flush()` is acknowledged for the
+latest accepted state of the key.  The automaton has no dead ends. -/
+theorem device_recovers_flush_succeeds (evs : List Ev) (k : Key) (h : evs.foldlM step? {} = some k) :
+    ∃ (more : List Ev) (k' : Key), (∀ e ∈ more, ∀ s, e ≠ .accept s) ∧ (more ++ [Ev.ack]).foldlM step? k = some k' ∧
+      k'.lastAck = latest k ∧ k'.hist = k.hist ∧ k'.pending = [] :=
+  reachable_can_flush evs k h
+
+/-- the hypotheses are met, and the construction is the expected one: two writes queued, the older
+one durable and acknowledged — skip nothing, write the newest, retire the old one, acknowledge -/
+example : ([.accept (some 1), .durable 1, .ack, .accept (some 2), .accept (some 3)] : List Ev).foldlM step? {} =
+      some { hist := [none, some 1, some 2, some 3], dur := [1], pending := [2, 3], lastAck := 1 } ∧
+    ([.skip 2, .durable 3, .retire 1, .ack] : List Ev).foldlM step?
+      { hist := [none, some 1, some 2, some 3], dur := [1], pending := [2, 3], lastAck := 1 } =
+      some { hist := [none, some 1, some 2, some 3], dur := [3], pending := [], lastAck := 3 } := by
+  decide
 
 end Feox.C09
